@@ -7,19 +7,11 @@ import FsProofs.Lemmas.ArchiveLemmas
 namespace Fs.ZipLemmas
 open Fs Fs.Path Fs.PathSpec Fs.PathLemmas Fs.Archive Fs.ArchiveLemmas
 
-theorem relpath_mkp {a : Bool} {cs : List Name} (h : Clean cs) : relpath (mkp a cs) = mkp false cs := by
-  rw [relpath, lstripSlash_mkp h]; simp [mkp]
-
 theorem mkp_true_beq {cs : List Name} (h : Clean cs) : (mkp true cs == ['/']) = decide (cs = []) := by
   by_cases hc : cs = []
   · subst hc; rfl
   · have : mkp true cs ≠ ['/'] := fun e => hc ((mkp_eq_slash_iff h).1 e).2
     simp [hc, this]
-
-theorem forcedir_mkp_false {cs : List Name} (h : Clean cs) (hne : cs ≠ []) :
-    forcedir (mkp false cs) = joinWith '/' cs ++ ['/'] := by
-  simp only [forcedir, endsWithSlash_mkp h hne, Bool.false_eq_true, if_false]
-  simp [mkp]
 
 section
 variable (z : ZipFS) (p : Str) (cs : List Name) (hv : Ref.validate p = .ok cs)
@@ -59,11 +51,29 @@ theorem dq_getinfo : z.dq (.getinfo p) =
   | some n => cases n <;> rfl
 end
 
+theorem assocGet_mem {k v : Str} {nm : List (Str × Str)} (h : assocGet k nm = some v) : (k, v) ∈ nm := by
+  induction nm with
+  | nil => simp [assocGet] at h
+  | cons e nm ih =>
+    obtain ⟨k', v'⟩ := e
+    simp only [assocGet] at h
+    by_cases hk : k' = k
+    · subst hk; simp at h; subst h; exact List.mem_cons_self
+    · simp only [hk, if_false] at h
+      exact List.mem_cons_of_mem _ (ih h)
+
+/-- when every remembered stored name is the normalised name itself, the lookup is the identity -/
+theorem stored_eq {z : ZipFS} (h : ∀ e ∈ z.names, e.1 = e.2) (x : Str) : z.stored x = x := by
+  unfold ZipFS.stored
+  cases hg : assocGet x z.names with
+  | none => rfl
+  | some v => exact (h _ (assocGet_mem hg)).symm
+
 /-- everything `ReadZipFS` answers at a validated path, from the kinds of its directory and the
 members its zip names resolve to -/
 theorem zip_obs_agree {t : Node} {z : ZipFS} (mt : List Name → Int)
     (ht : t.wf = true) (hd : t.isDir = true) (hzw : z.dir.wf = true)
-    (hk : ∀ q, kindAt z.dir q = kindAt t q)
+    (hk : ∀ q, kindAt z.dir q = kindAt t q) (hnames : ∀ e ∈ z.names, e.1 = e.2)
     (hm : ∀ cs n, cs ≠ [] → t.get cs = some n →
       lookupLast z.members (zipName cs n.isDir) =
         some ⟨zipName cs n.isDir, n.isDir, fileBytes n, zipTime (mt cs)⟩)
@@ -94,7 +104,7 @@ theorem zip_obs_agree {t : Node} {z : ZipFS} (mt : List Name → Int)
   have hzn : z.zipNameOf p = match z.dir.get cs with
       | some (.dir _) => .ok (forcedir (mkp false cs))
       | _ => .ok (mkp false cs) := by
-    simp only [ZipFS.zipNameOf, hnorm, hrel, dq_isdir z _ cs hvf]
+    simp only [ZipFS.zipNameOf, hnorm, hrel, dq_isdir z _ cs hvf, stored_eq hnames]
     cases z.dir.get cs with
     | none => rfl
     | some n => cases n <;> rfl
@@ -150,5 +160,454 @@ theorem zip_obs_agree {t : Node} {z : ZipFS} (mt : List Name → Int)
       · have hlk := hm cs (.dir es) hc hg
         simp only [Node.isDir, zipName_dir hcl hc, fileBytes] at hlk
         simp [hc, dq_getinfo z _ cs hvt, hzg, hzn, forcedir_mkp_false hcl hc, hlk]
+
+
+/-! ### any member list: every listed file has a stored name that is in the archive -/
+
+theorem blocked_false_prefix {T : Node} (pre cs : List Name) (h : Ref.blockedByFile T pre cs = false) :
+    ∀ q, q <+: cs → q ≠ cs → kindAt T (pre ++ q) ≠ some false := by
+  induction cs generalizing pre with
+  | nil => intro q hq hne; rw [List.prefix_nil] at hq; exact absurd hq hne
+  | cons c cs ih =>
+    simp only [Ref.blockedByFile, Bool.or_eq_false_iff] at h
+    obtain ⟨h1, h2⟩ := h
+    intro q hq hne
+    rcases List.prefix_cons_iff.1 hq with rfl | ⟨q', rfl, hq'⟩
+    · simp only [List.append_nil, kindAt]
+      cases hg : T.get pre with
+      | none => simp
+      | some n =>
+        cases n with
+        | dir es => simp [Node.isDir]
+        | file d => rw [hg] at h1; simp at h1
+    · by_cases hcs : cs = []
+      · subst hcs
+        rw [List.prefix_nil] at hq'
+        subst hq'
+        exact absurd rfl hne
+      · simp only [hcs, if_false] at h2
+        have := ih (pre ++ [c]) h2 q' hq' (by intro e; exact hne (by rw [e]))
+        simpa using this
+
+/-- files of `T'` are files of `T`, except possibly at `extra` -/
+def FilesFrom (T' T : Node) (extra : Option (List Name)) : Prop :=
+  ∀ r, kindAt T' r = some false → kindAt T r = some false ∨ extra = some r
+
+theorem step_makedirs_files (T : Node) (p : Str) (s' : Ref.State) (v : Ref.Val)
+    (h : Ref.step ⟨T, false⟩ (.makedirs p true) = (s', .ok v)) :
+    s'.closed = false ∧ FilesFrom s'.root T none := by
+  cases hv : Ref.validate p with
+  | err e =>
+    simp only [Ref.step, Ref.Op.paths, mapM_single_err p e hv, Ref.fail] at h
+    cases h
+  | ok cs =>
+    rw [step_makedirs T p cs hv] at h
+    simp only [Ref.step1] at h
+    by_cases hb : Ref.blockedByFile T [] cs = true
+    · simp [hb, Ref.fail] at h
+    · simp only [hb, Bool.false_eq_true, if_false] at h
+      cases hg : T.get cs with
+      | some n =>
+        rw [hg] at h
+        cases n with
+        | dir es =>
+          simp only [if_true, Ref.done, Prod.mk.injEq] at h
+          obtain ⟨rfl, _⟩ := h
+          exact ⟨rfl, fun r hr => Or.inl hr⟩
+        | file d => simp [Ref.fail] at h
+      | none =>
+        rw [hg] at h
+        simp only [Ref.upd, Prod.mk.injEq] at h
+        obtain ⟨rfl, _⟩ := h
+        refine ⟨rfl, ?_⟩
+        have hbf : Ref.blockedByFile T [] cs = false := by simpa using hb
+        have hTroot : kindAt T [] ≠ some false := by
+          by_cases hc : cs = []
+          · subst hc; rw [get_nil] at hg; cases hg
+          · have := blocked_false_prefix [] cs hbf [] List.nil_prefix (fun e => hc e.symm)
+            simpa using this
+        have hroot : kindAt T [] = some true := by
+          simp only [kindAt, get_nil, Option.map_some] at hTroot ⊢
+          cases hd : T.isDir
+          · simp [hd] at hTroot
+          · rfl
+        have hnb : ∀ q, q <+: cs → kindAt T ([] ++ q) ≠ some false := by
+          intro q hq
+          by_cases hqc : q = cs
+          · subst hqc; simp [kindAt, hg]
+          · exact blocked_false_prefix [] cs hbf q hq hqc
+        obtain ⟨_, p2⟩ := kindAt_mkdirs (T := T) [] cs hroot hnb
+        intro r hr
+        rcases p2 r with h1 | ⟨_, h2, _⟩
+        · left; rw [← h1]; exact hr
+        · simp only at hr; rw [h2] at hr; cases hr
+
+theorem step_create_files (T : Node) (p : Str) (s' : Ref.State) (v : Ref.Val)
+    (h : Ref.step ⟨T, false⟩ (.create p false) = (s', .ok v)) :
+    ∃ cs, Ref.validate p = .ok cs ∧ s'.closed = false ∧ FilesFrom s'.root T (some cs) := by
+  cases hv : Ref.validate p with
+  | err e =>
+    simp only [Ref.step, Ref.Op.paths, mapM_single_err p e hv, Ref.fail] at h
+    cases h
+  | ok cs =>
+    refine ⟨cs, rfl, ?_⟩
+    rw [step_create T p cs hv] at h
+    simp only [Ref.step1, Bool.not_false, Bool.true_and] at h
+    cases hg : T.get cs with
+    | some n =>
+      simp only [hg, Option.isSome_some, if_true, Ref.done, Prod.mk.injEq] at h
+      obtain ⟨rfl, _⟩ := h
+      exact ⟨rfl, fun r hr => Or.inl hr⟩
+    | none =>
+      simp only [hg, Option.isSome_none, Bool.false_eq_true, if_false, Ref.writeFile] at h
+      by_cases hc : cs = []
+      · simp [hc, Ref.fail] at h
+      · simp only [hc, if_false, Ref.parentOf] at h
+        cases hp : T.get cs.dropLast with
+        | none => simp [hp, Ref.fail] at h
+        | some n =>
+          cases n with
+          | file d => simp [hp, Ref.fail] at h
+          | dir es =>
+            simp only [hp, Ref.upd, Prod.mk.injEq] at h
+            obtain ⟨rfl, _⟩ := h
+            refine ⟨rfl, ?_⟩
+            have hset := kindAt_set (T := T) (cs := cs) (v := .file []) hc
+              (by simp [kindAt, hp, Node.isDir]) hg (leaf_file [])
+            intro r hr
+            simp only at hr
+            rw [hset r] at hr
+            by_cases hrc : r = cs
+            · right; rw [hrc]
+            · left; simpa [hrc] using hr
+
+theorem step_makedirs_err (T : Node) (p : Str) (s' : Ref.State) (e : Err)
+    (h : Ref.step ⟨T, false⟩ (.makedirs p true) = (s', .err e)) : s' = ⟨T, false⟩ := by
+  cases hv : Ref.validate p with
+  | err e' =>
+    simp only [Ref.step, Ref.Op.paths, mapM_single_err p e' hv, Ref.fail, Bool.false_eq_true, if_false,
+      Prod.mk.injEq] at h
+    exact h.1.symm
+  | ok cs =>
+    rw [step_makedirs T p cs hv] at h
+    simp only [Ref.step1] at h
+    split at h
+    · simp only [Ref.fail, Prod.mk.injEq] at h; exact h.1.symm
+    · split at h
+      · simp only [if_true, Ref.done, Prod.mk.injEq] at h; exact h.1.symm
+      · simp only [if_true, Ref.fail, Prod.mk.injEq] at h; exact h.1.symm
+      · simp [Ref.upd] at h
+
+theorem step_create_err (T : Node) (p : Str) (s' : Ref.State) (e : Err)
+    (h : Ref.step ⟨T, false⟩ (.create p false) = (s', .err e)) : s' = ⟨T, false⟩ := by
+  cases hv : Ref.validate p with
+  | err e' =>
+    simp only [Ref.step, Ref.Op.paths, mapM_single_err p e' hv, Ref.fail, Bool.false_eq_true, if_false,
+      Prod.mk.injEq] at h
+    exact h.1.symm
+  | ok cs =>
+    rw [step_create T p cs hv] at h
+    simp only [Ref.step1, Bool.not_false, Bool.true_and] at h
+    split at h
+    · simp [Ref.done] at h
+    · simp only [Ref.writeFile] at h
+      split at h
+      · simp only [Ref.fail, Prod.mk.injEq] at h; exact h.1.symm
+      · split at h
+        · simp only [Ref.fail, Prod.mk.injEq] at h; exact h.1.symm
+        · simp only [Ref.fail, Prod.mk.injEq] at h; exact h.1.symm
+        · split at h
+          · simp only [Ref.fail, Prod.mk.injEq] at h; exact h.1.symm
+          · simp [Ref.upd] at h
+          · simp [Ref.upd] at h
+
+/-- every file of the directory is remembered under its normalised path, with a stored name from `seen` -/
+def Named (T : Node) (nm : List (Str × Str)) (seen : List Str) : Prop :=
+  ∀ cs, kindAt T cs = some false → ∃ st, assocGet (mkp false cs) nm = some st ∧ st ∈ seen
+
+theorem endsWithSlash_forcedir (x : Str) : endsWithSlash (forcedir x) = true := by
+  unfold forcedir
+  by_cases h : endsWithSlash x = true
+  · simp [h]
+  · simp only [h, Bool.false_eq_true, if_false]
+    simp [endsWithSlash, startsWithSlash]
+
+theorem kind_file_clean {T : Node} (hT : T.wf = true) {cs : List Name} (h : kindAt T cs = some false) :
+    Clean cs ∧ cs ≠ [] ∨ cs = [] := by
+  by_cases hc : cs = []
+  · exact Or.inr hc
+  · left
+    simp only [kindAt, Option.map_eq_some_iff] at h
+    obtain ⟨n, hn, _⟩ := h
+    exact ⟨(wf_get hT hn).1.clean, hc⟩
+
+theorem dirStep_named {T : Node} (hT : T.wf = true) {nm : List (Str × Str)} {seen : List Str}
+    (hN : Named T nm seen) (name k : Str) (s' : Ref.State)
+    (hstep : dirStep ⟨T, false⟩ name = (s', none)) (hk : zipKey name = .ok k) :
+    Named s'.root ((k, name) :: nm) (name :: seen) := by
+  have hw' := (dirStep_wf ⟨T, false⟩ hT rfl name)
+  rw [hstep] at hw'
+  have keep : ∀ cs, kindAt T cs = some false → mkp false cs ≠ k →
+      ∃ st, assocGet (mkp false cs) ((k, name) :: nm) = some st ∧ st ∈ name :: seen := by
+    intro cs hcs hne
+    obtain ⟨st, h1, h2⟩ := hN cs hcs
+    refine ⟨st, ?_, List.mem_cons_of_mem _ h2⟩
+    simp only [assocGet]
+    have : ¬ k = mkp false cs := fun e => hne e.symm
+    simp [this, h1]
+  simp only [dirStep] at hstep
+  by_cases hes : endsWithSlash name = true
+  · -- a directory member
+    simp only [hes, if_true] at hstep
+    cases hr : Ref.step ⟨T, false⟩ (.makedirs name true) with
+    | mk s1 o1 =>
+      rw [hr] at hstep
+      cases o1 with
+      | err e => simp [outErr] at hstep
+      | ok v =>
+        simp only [outErr, Prod.mk.injEq, and_true] at hstep
+        subst hstep
+        obtain ⟨_, hf⟩ := step_makedirs_files T name s1 v hr
+        intro cs hcs
+        rcases hf cs hcs with h | h
+        · apply keep cs h
+          intro e
+          -- k ends with a slash, the join of a file path does not
+          simp only [zipKey] at hk
+          cases hn : normpath name with
+          | err e' => rw [hn] at hk; cases hk
+          | ok n =>
+            rw [hn] at hk
+            simp only [hes, if_true, Res.ok.injEq] at hk
+            have hke : endsWithSlash k = true := by rw [← hk]; exact endsWithSlash_forcedir _
+            rcases kind_file_clean hT h with ⟨hcl, hne⟩ | hnil
+            · rw [← e, endsWithSlash_mkp hcl hne] at hke; cases hke
+            · subst hnil
+              rw [← e] at hke
+              simp [mkp, joinWith, endsWithSlash, startsWithSlash] at hke
+        · cases h
+  · -- a file member
+    simp only [hes, Bool.false_eq_true, if_false] at hstep
+    cases hr : Ref.step ⟨T, false⟩ (.makedirs (dirname name) true) with
+    | mk s1 o1 =>
+      rw [hr] at hstep
+      cases o1 with
+      | err e => simp at hstep
+      | ok v =>
+        simp only at hstep
+        obtain ⟨hc1, hf1⟩ := step_makedirs_files T (dirname name) s1 v hr
+        obtain ⟨T1, c1⟩ := s1
+        simp only at hc1 hf1
+        subst hc1
+        cases hr2 : Ref.step ⟨T1, false⟩ (.create name false) with
+        | mk s2 o2 =>
+          rw [hr2] at hstep
+          cases o2 with
+          | err e => simp [outErr] at hstep
+          | ok v2 =>
+            simp only [outErr, Prod.mk.injEq, and_true] at hstep
+            subst hstep
+            obtain ⟨cs0, hv0, _, hf2⟩ := step_create_files T1 name s2 v2 hr2
+            obtain ⟨hac0, hn0⟩ := validate_ok hv0
+            have hk' : k = mkp false cs0 := by
+              simp only [zipKey, hn0, hes, Bool.false_eq_true, if_false, Res.ok.injEq,
+                relpath_mkp hac0.clean] at hk
+              exact hk.symm
+            intro cs hcs
+            by_cases hcc : mkp false cs = k
+            · exact ⟨name, by simp [assocGet, hcc], List.mem_cons_self⟩
+            · rcases hf2 cs hcs with h | h
+              · rcases hf1 cs h with h' | h'
+                · exact keep cs h' hcc
+                · cases h'
+              · cases h
+                exact absurd hk'.symm hcc
+
+theorem named_of_filesFrom {T T' : Node} {nm : List (Str × Str)} {seen : List Str} (hN : Named T nm seen)
+    (hf : FilesFrom T' T none) : Named T' nm seen := by
+  intro cs hcs
+  rcases hf cs hcs with h | h
+  · exact hN cs h
+  · cases h
+
+/-- a member at which the loop aborts leaves no file behind -/
+theorem dirStep_abort_files (T : Node) (name : Str) (s' : Ref.State) (e : Err)
+    (hstep : dirStep ⟨T, false⟩ name = (s', some e)) : FilesFrom s'.root T none := by
+  simp only [dirStep] at hstep
+  by_cases hes : endsWithSlash name = true
+  · simp only [hes, if_true] at hstep
+    cases hr : Ref.step ⟨T, false⟩ (.makedirs name true) with
+    | mk s1 o1 =>
+      rw [hr] at hstep
+      cases o1 with
+      | ok v => simp [outErr] at hstep
+      | err e1 =>
+        simp only [outErr, Prod.mk.injEq] at hstep
+        obtain ⟨rfl, _⟩ := hstep
+        rw [step_makedirs_err T name s1 e1 hr]
+        exact fun r hr => Or.inl hr
+  · simp only [hes, Bool.false_eq_true, if_false] at hstep
+    cases hr : Ref.step ⟨T, false⟩ (.makedirs (dirname name) true) with
+    | mk s1 o1 =>
+      rw [hr] at hstep
+      cases o1 with
+      | err e1 =>
+        simp only [Prod.mk.injEq] at hstep
+        obtain ⟨rfl, _⟩ := hstep
+        rw [step_makedirs_err T _ s1 e1 hr]
+        exact fun r hr => Or.inl hr
+      | ok v =>
+        simp only at hstep
+        obtain ⟨hc1, hf1⟩ := step_makedirs_files T (dirname name) s1 v hr
+        obtain ⟨T1, c1⟩ := s1
+        simp only at hc1 hf1
+        subst hc1
+        cases hr2 : Ref.step ⟨T1, false⟩ (.create name false) with
+        | mk s2 o2 =>
+          rw [hr2] at hstep
+          cases o2 with
+          | ok v2 => simp [outErr] at hstep
+          | err e2 =>
+            simp only [outErr, Prod.mk.injEq] at hstep
+            obtain ⟨rfl, _⟩ := hstep
+            rw [step_create_err T1 name s2 e2 hr2]
+            exact hf1
+
+/-- a member that was processed has a `_zip_names` key -/
+theorem dirStep_ok_zipKey (T : Node) (name : Str) (s' : Ref.State)
+    (hstep : dirStep ⟨T, false⟩ name = (s', none)) : ∃ k, zipKey name = .ok k := by
+  have hval : ∃ cs, Ref.validate name = .ok cs := by
+    simp only [dirStep] at hstep
+    by_cases hes : endsWithSlash name = true
+    · simp only [hes, if_true] at hstep
+      cases hv : Ref.validate name with
+      | ok cs => exact ⟨cs, rfl⟩
+      | err e =>
+        simp [Ref.step, Ref.Op.paths, mapM_single_err name e hv, Ref.fail, outErr] at hstep
+    · simp only [hes, Bool.false_eq_true, if_false] at hstep
+      cases hr : Ref.step ⟨T, false⟩ (.makedirs (dirname name) true) with
+      | mk s1 o1 =>
+        rw [hr] at hstep
+        cases o1 with
+        | err e1 => simp at hstep
+        | ok v =>
+          simp only at hstep
+          obtain ⟨hc1, _⟩ := step_makedirs_files T (dirname name) s1 v hr
+          obtain ⟨T1, c1⟩ := s1
+          simp only at hc1
+          subst hc1
+          cases hr2 : Ref.step ⟨T1, false⟩ (.create name false) with
+          | mk s2 o2 =>
+            rw [hr2] at hstep
+            cases o2 with
+            | err e2 => simp [outErr] at hstep
+            | ok v2 =>
+              obtain ⟨cs0, hv0, _⟩ := step_create_files T1 name s2 v2 hr2
+              exact ⟨cs0, hv0⟩
+  obtain ⟨cs, hv⟩ := hval
+  obtain ⟨_, hn⟩ := validate_ok hv
+  simp only [zipKey, hn]
+  exact ⟨_, rfl⟩
+
+theorem buildDir_named (names : List Str) (s : Ref.State) (hs : s.root.wf = true) (hc : s.closed = false)
+    (nm : List (Str × Str)) (seen : List Str) (hN : Named s.root nm seen) :
+    Named (buildDir s nm names).1.root (buildDir s nm names).2.1 (names.reverse ++ seen) := by
+  induction names generalizing s nm seen with
+  | nil => simpa [buildDir] using hN
+  | cons n ns ih =>
+    obtain ⟨T, c⟩ := s
+    simp only at hs hc hN
+    subst hc
+    have hw := dirStep_wf ⟨T, false⟩ hs rfl n
+    have weaken : ∀ {T' : Node} {nm' : List (Str × Str)}, Named T' nm' seen →
+        Named T' nm' ((n :: ns).reverse ++ seen) := by
+      intro T' nm' h cs hcs
+      obtain ⟨st, h1, h2⟩ := h cs hcs
+      exact ⟨st, h1, List.mem_append_right _ h2⟩
+    simp only [buildDir]
+    cases hd : dirStep ⟨T, false⟩ n with
+    | mk s' e =>
+      rw [hd] at hw
+      cases e with
+      | some e =>
+        -- aborted: `dirStep` changes the directory only by successful steps before the failing one;
+        -- what is there was named before or is a fresh directory … handled by the general frame:
+        simp only
+        exact weaken (named_of_filesFrom hN (dirStep_abort_files T n s' e hd))
+      | none =>
+        simp only
+        cases hk : zipKey n with
+        | err e =>
+          obtain ⟨k, hk'⟩ := dirStep_ok_zipKey T n s' hd
+          rw [hk] at hk'; cases hk' 
+        | ok k =>
+          simp only
+          have h1 := dirStep_named hs hN n k s' hd hk
+          have := ih s' hw.1 hw.2 ((k, n) :: nm) (n :: seen) h1
+          simpa [List.reverse_cons, List.append_assoc] using this
+
+
+theorem lookupLast_of_mem_names {ms : List Member} {st : Str} (h : st ∈ ms.map (·.name)) :
+    ∃ m, m ∈ ms ∧ m.name = st ∧ lookupLast ms st = some m := by
+  unfold lookupLast
+  obtain ⟨m0, hm0, hn0⟩ := List.mem_map.1 h
+  cases hf : ms.reverse.find? (fun m => m.name == st) with
+  | none =>
+    rw [List.find?_eq_none] at hf
+    have := hf m0 (List.mem_reverse.2 hm0)
+    simp [hn0] at this
+  | some m =>
+    have h1 := List.find?_some hf
+    have h2 := List.mem_of_find?_eq_some hf
+    exact ⟨m, List.mem_reverse.1 h2, by simpa using h1, rfl⟩
+
+/-- the directory of any archive remembers, for each of its files, a stored name that is a member -/
+theorem readZip_named (ms : List Member) : Named (readZip ms).dir (readZip ms).names (ms.map (·.name)) := by
+  have h0 : Named (Ref.State.empty).root [] [] := by
+    intro cs hcs
+    cases cs with
+    | nil => simp [kindAt, Ref.State.empty, get_nil, Node.isDir] at hcs
+    | cons c cs => simp [kindAt, Ref.State.empty, get_cons_dir, Ents.lookup] at hcs
+  have := buildDir_named (ms.map (·.name)) Ref.State.empty (by decide) rfl [] [] h0
+  intro cs hcs
+  obtain ⟨st, h1, h2⟩ := this cs hcs
+  refine ⟨st, h1, ?_⟩
+  simpa using h2
+
+/-- EVERY LISTED FILE CAN BE READ AND STAT'ED, whatever the member names: at any path string that
+validates to the components of a file of the directory, `openbin`, `readbytes` and
+`getinfo(details)` answer with the bytes / size / mtime of one member of the archive -/
+theorem zip_listed_file_readable (ms : List Member) {p : Str} {cs : List Name}
+    (hv : Ref.validate p = .ok cs) {b : Bytes} (hg : (readZip ms).dir.get cs = some (.file b)) :
+    ∃ m, m ∈ ms ∧ (readZip ms).openRead p = .ok m.data ∧ (readZip ms).readbytes p = .ok m.data ∧
+      (readZip ms).details p = .ok ⟨Ref.lastName cs, false, some m.data.length, some m.mtime⟩ := by
+  obtain ⟨hac, hnorm⟩ := validate_ok hv
+  have hcl := hac.clean
+  have hvt : Ref.validate (mkp true cs) = .ok cs := validate_mkp true hac
+  have hvf : Ref.validate (mkp false cs) = .ok cs := validate_mkp false hac
+  have habs : abspath (mkp (startsWithSlash p) cs) = mkp true cs := abspath_mkp hcl
+  have hrel : relpath (mkp (startsWithSlash p) cs) = mkp false cs := relpath_mkp hcl
+  have hkf : kindAt (readZip ms).dir cs = some false := by simp [kindAt, hg, Node.isDir]
+  obtain ⟨st, hst1, hst2⟩ := readZip_named ms cs hkf
+  obtain ⟨m, hm1, _, hm3⟩ := lookupLast_of_mem_names hst2
+  have hmem : lookupLast (readZip ms).members st = some m := hm3
+  have hc : cs ≠ [] := by
+    intro e; subst e
+    have hroot : (readZip ms).dir.isDir = true := by
+      have := buildDir_isDir (ms.map (·.name)) Ref.State.empty rfl []
+      simpa [readZip, Ref.State.empty, Node.isDir] using this
+    rw [get_nil, Option.some.injEq] at hg
+    rw [hg] at hroot
+    simp [Node.isDir] at hroot
+  have hstored : (readZip ms).stored (mkp false cs) = st := by simp [ZipFS.stored, hst1]
+  have hzn : (readZip ms).zipNameOf p = .ok st := by
+    simp only [ZipFS.zipNameOf, hnorm, hrel, dq_isdir _ _ cs hvf, hg, hstored]
+  refine ⟨m, hm1, ?_, ?_, ?_⟩
+  · simp only [ZipFS.openRead, dq_exists _ p cs hv, dq_isdir _ p cs hv, hg, hzn, ZipFS.memberOf, hmem]
+    simp [Res.map]
+  · simp only [ZipFS.readbytes, dq_isfile _ p cs hv, hg, hzn, ZipFS.memberOf, hmem]
+    simp [Res.map]
+  · simp only [ZipFS.details, hnorm, habs, mkp_true_beq hcl, hc, decide_false, Bool.false_eq_true, if_false,
+      dq_getinfo _ _ cs hvt, hg, hzn, hmem]
 
 end Fs.ZipLemmas
